@@ -3,12 +3,14 @@ package checks
 import (
 	"bytes"
 	"context"
+	"encoding/json"
 	"fmt"
 	"github.com/attestantio/dirk/core"
 	"github.com/attestantio/dirk/services/lister"
 	"regexp"
 	"sort"
 	"strings"
+	"time"
 
 	"verif/ev"
 	"verif/model"
@@ -294,22 +296,28 @@ func C18(tier string) int {
 		}
 		r.Close()
 	}
+	conc, err := c18Concurrent(run, time.Now().Add(3*time.Minute))
+	if err != nil {
+		run.HarnessErr = err
+		return run.Finish()
+	}
 	racePassInfo, err := raceFindings(run, "accounts are generated into a wallet that was empty at start-up while two clients list it and a third signs with what exists so far, free-running in a child built with -race")
 	if err != nil {
 		run.HarnessErr = err
 		return run.Finish()
 	}
 	run.Coverage = map[string]any{
-		"race_detector_pass":  racePassInfo,
-		"evaluations":         cells,
-		"distinct_nontrivial": len(classes),
-		"rule":                "population: 2 plain wallets and 1 distributed wallet with regex-significant account names; 7 permission tables incl. per-account, deny-first and case-differing entries; every path list of length <= 2 (<= 3 in thorough, one third of the triples) over 18 path forms (wallet only, short-before-long alternation, lazy quantifier, trailing slash, literal, regex, alternation, anchored, unknown, empty, leading slash, invalid regex, wrong case); 3 clients; before creating, after creating, and after creating a second time a plain account through generation and a distributed account through import+AddAccount (the DKG commit path), every listing repeated in each of the three phases; through the real gRPC lister handler, with another client's listing served between the lister's return and the handler's read; oracle: returned set is a subset of (requested wallets and permitted), a superset of (permitted and whole-matching a requested path), names and keys equal the store's; distinct = (size of must set, size of returned set) classes",
-		"samples":             samples.List(),
-		"exhaustive":          true,
-		"cells":               cells,
-		"accounts_returned":   returned,
-		"classes":             classes,
-		"path_lists":          len(lists),
+		"race_detector_pass":         racePassInfo,
+		"creations_at_the_same_time": conc,
+		"evaluations":                cells,
+		"distinct_nontrivial":        len(classes),
+		"rule":                       "population: 2 plain wallets and 1 distributed wallet with regex-significant account names; 7 permission tables incl. per-account, deny-first and case-differing entries; every path list of length <= 2 (<= 3 in thorough, one third of the triples) over 18 path forms (wallet only, short-before-long alternation, lazy quantifier, trailing slash, literal, regex, alternation, anchored, unknown, empty, leading slash, invalid regex, wrong case); 3 clients; before creating, after creating, and after creating a second time a plain account through generation and a distributed account through import+AddAccount (the DKG commit path), every listing repeated in each of the three phases; through the real gRPC lister handler, with another client's listing served between the lister's return and the handler's read; oracle: returned set is a subset of (requested wallets and permitted), a superset of (permitted and whole-matching a requested path), names and keys equal the store's; distinct = (size of must set, size of returned set) classes",
+		"samples":                    samples.List(),
+		"exhaustive":                 true,
+		"cells":                      cells,
+		"accounts_returned":          returned,
+		"classes":                    classes,
+		"path_lists":                 len(lists),
 	}
 	run.Assumptions = []string{"names and patterns outside the alphabets behave like their representatives"}
 	_ = e2types.InitBLS
@@ -317,5 +325,16 @@ func C18(tier string) int {
 }
 
 func init() {
+	Replayers["C18"] = func(raw json.RawMessage) int {
+		var rp struct {
+			Concurrent *c18ConcScenario `json:"concurrent"`
+			Choices    []int            `json:"choices"`
+			PerG       bool             `json:"goroutine_mode"`
+		}
+		if err := json.Unmarshal(raw, &rp); err == nil && rp.Concurrent != nil {
+			return c18ReplayConcurrent(*rp.Concurrent, rp.Choices, rp.PerG)
+		}
+		return C18("quick")
+	}
 	Registry["C18"] = C18
 }
